@@ -36,12 +36,20 @@ def one_case(seed):
     p = P.Project(root=os.path.join(base, 'proj'));
     try:
         model = I.gen(rnd)
+        if 'tool' not in model['recipes']:        # every project consumes a tool somewhere (clause: tools are found on PATH / LD_LIBRARY_PATH)
+            model['recipes']['tool'] = {'buildScript': 'echo tool\n', 'packageScript': 'mkdir -p bin lib lib64; echo tool\n', 'provideTools': {'gen': {'path': 'bin', 'libs': ['lib', 'lib64']}}}
+            model['recipes']['r0'].setdefault('depends', []).append({'name': 'tool', 'use': ['tools']}); model['recipes']['r0']['buildTools'] = ['gen']
         # one fingerprinted recipe
         fpn = rnd.choice([n for n in sorted(model['recipes']) if n.startswith('r')])
         values = {}
         m = instrument(model, dump, values)
         fpvars = sorted(rnd.sample(I.VARS, 2))
         m['recipes'][fpn].update({'fingerprintIf': True, 'fingerprintVars': fpvars, 'fingerprintScript': 'env -0 > "%s/%s.fingerprint.env"\necho fp\n' % (dump, fpn)})
+        # a recipe may declare variables that carry the names of the computed ones: the consumed tools still have to be found
+        for name, r in m['recipes'].items():
+            if name.startswith('r') and any('gen' in r.get(k, []) for k in ('buildTools', 'buildToolsWeak', 'packageTools')) and seed % 2 == 0:
+                r['environment']['PATH'] = '/usr/bin:/bin:/declared/bin'; r['environment']['LD_LIBRARY_PATH'] = '/declared/lib'
+                for k in ('buildVars', 'packageVars'): r[k] = sorted(set(r.get(k, [])) | {'PATH', 'LD_LIBRARY_PATH'})
         defs = []
         for name in m['recipes']:
             if not name.startswith('r'): continue
@@ -66,7 +74,7 @@ def one_case(seed):
                 f = os.path.join(dump, '%s.%s.env' % (name, step))
                 if not os.path.exists(f): continue
                 env = dict(e.split('=', 1) for e in open(f, 'rb').read().decode('utf-8', 'surrogateescape').split('\0') if '=' in e)
-                want = {v: values[(name, v)] for v in (strong[step] | weak[step])}
+                want = {v: values[(name, v)] for v in (strong[step] | weak[step]) if (name, v) in values}
                 for v in I.VARS:
                     if v in want:
                         if env.get(v) != want[v]:
